@@ -169,6 +169,22 @@ def same(a, b):
     return a == b
 
 
+def no_encap(x):
+    """the statement does not name encap_protocol_version: the oracle leaves it to the correspondence.
+    x = [tag, encap, ip, ...] | [valid, tag, encap, ip, ...] | [n, 11 tokens per device ...]"""
+    x = list(x)
+    if x and x[0] in ("ok", "some") and len(x) == 12:
+        return x[:1] + x[2:]
+    if len(x) == 13 and x[1] == "some":
+        return x[:2] + x[3:]
+    if x and isinstance(x[0], int) and not isinstance(x[0], bool) and len(x) == 1 + 11 * x[0]:
+        out = x[:1]
+        for k in range(x[0]):
+            out += x[2 + 11 * k: 12 + 11 * k]
+        return out
+    return x
+
+
 def exc_code(e):
     from pycomm3.exceptions import BufferEmptyError, DataError, CommError, RequestError, ResponseError
     if isinstance(e, BufferEmptyError):
@@ -563,7 +579,7 @@ def check_pure(R, mp, ids, tables, rng, n_mut):
         R.case(("declist", frame))
         if not same(impl, mdl):
             R.disagree("ListIdentityObject.decode", case, mdl, impl)
-        if not same(impl, ["ok"] + vlist):
+        if not same(no_encap(impl), no_encap(["ok"] + vlist)):
             R.fail("ListIdentityObject.decode does not return the identity as encoded", case, impl, ["ok"] + vlist,
                    "ListIdentityObject.decode:" + field_class(impl, ["ok"] + vlist, LI_FIELDS))
         # ModuleIdentityObject.decode
@@ -585,7 +601,7 @@ def check_pure(R, mp, ids, tables, rng, n_mut):
         R.case(("lipkt", frame))
         if not same(impl, mdl):
             R.disagree("ListIdentityResponsePacket", case, mdl, impl)
-        if not same(impl, [1, "some"] + vlist):
+        if not same(no_encap(impl), no_encap([1, "some"] + vlist)):
             R.fail("ListIdentityResponsePacket: identity not as encoded / reply not valid", case, impl, [1, "some"] + vlist,
                    "ListIdentityResponsePacket:" + field_class(impl[1:], ["some"] + vlist, LI_FIELDS))
         if vk == "known" and pk == "known":
@@ -798,7 +814,7 @@ def check_drivers(R, mp, prepared, rng, n_valid, n_bad):
         if not same(impl, mdl):
             R.disagree("CIPDriver.list_identity", case, mdl, impl)
         R.count("list_identity_exchange", ",".join(dev.log))
-        if not same(impl, ["some"] + vlist):
+        if not same(no_encap(impl), no_encap(["some"] + vlist)):
             R.fail("CIPDriver.list_identity does not return the identity as encoded", {**case, "device_log": dev.log}, impl, ["some"] + vlist,
                    "list_identity:" + field_class(impl, ["some"] + vlist, LI_FIELDS))
         # CIPDriver.get_module_info (Unconnected Send through the backplane)
@@ -865,7 +881,7 @@ def check_drivers(R, mp, prepared, rng, n_valid, n_bad):
             exp = [len(g)]
             for _, _, v in g:
                 exp += v
-            if not same(impl, exp):
+            if not same(no_encap(impl), no_encap(exp)):
                 R.fail("CIPDriver.discover does not return the identities as encoded", {"datagrams": [[k, d] for k, d, _ in g]}, impl, exp, "discover:valid")
     # ---- corrupted replies through the drivers: correspondence only
     jobs = []
